@@ -11,7 +11,11 @@ against CPython floats; (b) history level -- generated PNG/JPEG/GIF/BMP/TIFF fil
 small sizes and many DPI settings are added to real decks through add_picture (path,
 stream, misleading file names), PicturePlaceholder.insert_picture, add_movie poster frames
 and add_ole_object icons, repeated and interleaved across slides with save/re-open in
-between; part names, rIds, extension, content type, sizes and the final media store are
+between; path-based additions go through a small pool of working files shared by the whole
+process and overwritten before every use, and most histories contain a twin pair (two
+different images of exactly the same byte length: other pixel values in uncompressed
+BMP/TIFF, another comment of the same length in PNG/JPEG/GIF) added one after the other
+from the same path, before and after a re-open; part names, rIds, extension, content type, sizes and the final media store are
 compared with the model.
 ORACLE: the property statement itself, evaluated on the saved zip and the live objects
 with an independent reading of the image file headers (format by magic bytes, pixel size
@@ -1178,7 +1182,8 @@ def run(ck, tier, rng):
              "non-numbers), native sizes over the dpi range 1..2048, scale over None/0/negative/small/large arguments and native "
              "sizes including 0, placeholder cropping, part-name populations with gaps, duplicates and odd names; history level: "
              "%d decks of 4-%d operations over 1-7 generated images (PNG/JPEG/GIF/BMP/TIFF, 1x1..64x48, DPI absent/fractional/0/"
-             "huge/non-square, patched headers, rejected files) added by path / stream / misleading file name as picture, "
+             "huge/non-square, patched headers, rejected files) added by path (a pool of 3 reused working files per extension, overwritten before each use; 60%% of the histories add a "
+             "same-length twin pair from the same path) / stream / misleading file name as picture, "
              "placeholder picture, movie poster or OLE icon on up to 5 slides with save + re-open in between; non-trivial = a unit "
              "case the implementation accepts (binary64 validation cases excluded), a history with at least two image additions"
              % (nh, 14 if tier == "quick" else 24),
@@ -1250,7 +1255,7 @@ def replay(rec):
 
 CLAIM = {
     "tech": "Coq proof over a Gallina model of the image store (digest index, part-name and rId allocation, Pillow-format/extension/content-type tables, dpi normalisation, native size, scale) over all operation histories + tables and source rules regenerated by a translator each run + extracted-model correspondence on real decks + independent header-reading oracle on the saved zip",
-    "text": "31 theorems closed under the global context: for any history from any state meeting the invariant (unique names, unique digests among indexed image parts, class by content type) an added image ends up as exactly one indexed part with the reported name/extension/content type (C15_once, C15_same_part, C15_distinct, C15_bytes, C15_new_part, C15_preserved), re-opening is the identity on the store so the rebuilt digest index answers as before (C15_reopen), every extension Image.ext can return incl. emf has its content type as the unique Default row and maps to ImagePart (C15_tables over gen/GenC15.v, C15_tables_match, C15_rules_match, C15_emf_by_header), normalised dpi always in 1..2048 (C15_dpi), native size = floor(914400*px/dpi) also when evaluated in binary64 (C15_native, C15_native_float), a TIFF without XResolution sized at 72 dpi (C15_native_tiff_without_resolution), scale: none->native, both->unchanged, 0 is None, one given -> |cy*W-cx*H| <= |W|/2 + 3*2^-53*|cx*H| for any rounding with 2^-53 relative error and for the model's fl64 unconditionally (C15_scale, C15_fl64_premises, C15_scale_fl64). Tie: ~20k unit cases + 615 deck histories (quick) / ~210k + 5090 (thorough) of generated PNG/JPEG/GIF/BMP/TIFF/EMF/WMF images added as pictures, placeholder pictures, movie posters and OLE icons by path/stream/misleading name across slides with save/re-open, plus 15 corpus decks, compared with the extracted model (0 diffs); oracle on the saved zip: one member per distinct input, bytes identical, extension/content type of the sniffed format, default size from the file's own resolution, aspect within rounding.",
+    "text": "31 theorems closed under the global context: for any history from any state meeting the invariant (unique names, unique digests among indexed image parts, class by content type) an added image ends up as exactly one indexed part with the reported name/extension/content type (C15_once, C15_same_part, C15_distinct, C15_bytes, C15_new_part, C15_preserved), re-opening is the identity on the store so the rebuilt digest index answers as before (C15_reopen), every extension Image.ext can return incl. emf has its content type as the unique Default row and maps to ImagePart (C15_tables over gen/GenC15.v, C15_tables_match, C15_rules_match, C15_emf_by_header), normalised dpi always in 1..2048 (C15_dpi), native size = floor(914400*px/dpi) also when evaluated in binary64 (C15_native, C15_native_float), a TIFF without XResolution sized at 72 dpi (C15_native_tiff_without_resolution), scale: none->native, both->unchanged, 0 is None, one given -> |cy*W-cx*H| <= |W|/2 + 3*2^-53*|cx*H| for any rounding with 2^-53 relative error and for the model's fl64 unconditionally (C15_scale, C15_fl64_premises, C15_scale_fl64). Tie: ~20k unit cases + 615 deck histories (quick) / ~210k + 5090 (thorough) of generated PNG/JPEG/GIF/BMP/TIFF/EMF/WMF images added as pictures, placeholder pictures, movie posters and OLE icons by path (reused, overwritten working files incl. same-byte-length twins)/stream/misleading name across slides with save/re-open, plus 15 corpus decks, compared with the extracted model (0 diffs); oracle on the saved zip: one member per distinct input, bytes identical, extension/content type of the sniffed format, default size from the file's own resolution, aspect within rounding.",
     "note": "Pillow's report for a byte string (format, size, dpi entry, presence of tag 282) and SHA-1 are inputs/parameters of the model; CPython binary64 = fl64 is validated bit-exactly each run, not proved; save/load as identity on (name, bytes, content type) is C01; removal of slides/shapes/relationships is outside the histories; images beyond 1202440 px per side are outside C15_native_float. Two defects found by this check (TIFF without resolution sized at 1 dpi; EMF stored as .wmf/image/x-wmf) were fixed in parts/image.py and their oracle signatures stay active.",
     "ref": "6/C15",
 }
